@@ -223,3 +223,8 @@ package bbr
 //@   ensures b.minCongestionWindow <= b.recoveryWindow && b.recoveryWindow <= b.maxCongestionWindow
 //@   ensures b.pacer.maxDatagramSize == s
 //@   modifies b.maxDatagramSize, b.initialCongestionWindow, b.maxCongestionWindow, b.minCongestionWindow, b.cwndToCalculateMinPacingRate, b.maxCongestionWindowWithNetworkParametersAdjusted, b.congestionWindow, b.recoveryWindow, b.pacer.maxDatagramSize
+
+// bookkeeping (the local half of "proportional to the packets in flight"): every congestion
+// event prunes the sampler's per-packet state - the call is on every path through the handler -
+// and nothing else removes entries
+//@ structural C12: always (*bandwidthSampler).RemoveObsoletePackets in (*bbrSender).OnCongestionEventEx
